@@ -6,6 +6,7 @@ import (
 	"fmt"
 	"net/url"
 	"reflect"
+	"strconv"
 	"strings"
 	"time"
 
@@ -70,8 +71,15 @@ func JSONGetFloat(val *fastjson.Value, prop string) float64 {
 	if !val.Exists(prop) {
 		return 0.0
 	}
-	f := val.Get(prop).GetFloat64()
-	return f
+	v := val.Get(prop)
+	if v.Type() != fastjson.TypeNumber {
+		return 0.0
+	}
+	// the parser's own conversion is a fast approximation (off by one ulp for some exponent forms): convert the token exactly
+	if f, err := strconv.ParseFloat(v.String(), 64); err == nil {
+		return f
+	}
+	return v.GetFloat64()
 }
 
 func JSONGetString(val *fastjson.Value, prop string) string {
